@@ -144,6 +144,20 @@ Example ex_colliding :
   length (keys s) = 100%nat /\ length (ring s) = 3%nat /\ get s 2 5 = GSome (mkNode 2 1).
 Proof. vm_compute. auto. Qed.
 
+(* The boolean that Check.prop_ok evaluates on the hash table of every generated case
+   ([collision_free t && table_ok t R]) implies the hypothesis of the theorems above for the
+   hash function the model is run with on that case, [vh_of t], on the case's universe:
+   "checked per case" = "the hypothesis of the theorem holds for this case". *)
+Theorem collision_free_spec : forall t R,
+  collision_free t = true -> table_ok t R = true ->
+  collision_free_on (vh_of t) R (fun n => In n (map fst t)).
+Proof. exact collision_free_spec_l. Qed.
+Print Assumptions collision_free_spec.
+
+Example table_example :
+  collision_free [(0, [5; 9]); (1, [7; 3])] = true /\ table_ok [(0, [5; 9]); (1, [7; 3])] 2 = true.
+Proof. vm_compute. auto. Qed.
+
 (* ---- non-vacuity of the collision-free theorems ----------------------------------------- *)
 (* a hash that is injective on (node, index < 100) for every node *)
 Definition cf_hash (n i : Z) : Z := n * 100 + i.
